@@ -120,6 +120,25 @@ func init() {
 		}
 		return Slice{arr: o, len: len(ms), cap: len(ms)}
 	})
+	// one match: on symbolic data the same byte-cell abstraction as FindAllStringSubmatchIndex
+	N("(*regexp.Regexp).FindStringSubmatchIndex", func(e *Exec, _ *frame, a []Value) Value {
+		re := a[0].(*Native).v.(*regexp.Regexp)
+		if s := a[1].(Str); s.b != nil {
+			e.path.noteNative("(*regexp.Regexp).FindStringSubmatchIndex (symbolic data: byte-cell abstraction of the compiled pattern, ASCII only)")
+			return e.mkIntSlice(re.FindStringSubmatchIndex(e.cellString(re, s)))
+		}
+		e.path.noteNative("(*regexp.Regexp).FindStringSubmatchIndex")
+		return e.mkIntSlice(re.FindStringSubmatchIndex(e.needStr(a[1], "regexp")))
+	})
+	N("(*regexp.Regexp).FindStringIndex", func(e *Exec, _ *frame, a []Value) Value {
+		re := a[0].(*Native).v.(*regexp.Regexp)
+		if s := a[1].(Str); s.b != nil {
+			e.path.noteNative("(*regexp.Regexp).FindStringIndex (symbolic data: byte-cell abstraction of the compiled pattern, ASCII only)")
+			return e.mkIntSlice(re.FindStringIndex(e.cellString(re, s)))
+		}
+		e.path.noteNative("(*regexp.Regexp).FindStringIndex")
+		return e.mkIntSlice(re.FindStringIndex(e.needStr(a[1], "regexp")))
+	})
 	N("(*regexp.Regexp).FindString", func(e *Exec, _ *frame, a []Value) Value {
 		e.path.noteNative("(*regexp.Regexp).FindString")
 		return mkStr(a[0].(*Native).v.(*regexp.Regexp).FindString(e.needStr(a[1], "regexp")))
@@ -142,7 +161,8 @@ func init() {
 	// ---- strconv (float side), html, json, filepath ----
 	N("strconv.ParseFloat", func(e *Exec, _ *frame, a []Value) Value {
 		e.path.noteNative("strconv.ParseFloat")
-		f, err := strconv.ParseFloat(e.needStr(a[0], "strconv.ParseFloat"), int(e.needInt(a[1], "bitSize")))
+		// a short literal with symbolic digits is case-split byte by byte (bounded by the engine's split limit)
+		f, err := strconv.ParseFloat(e.concretizeStr(a[0].(Str), "strconv.ParseFloat"), int(e.needInt(a[1], "bitSize")))
 		return Tuple{f, e.nativeErr(err)}
 	})
 	fmtInt := func(e *Exec, v Value, k types.BasicKind, base int64) Value {
